@@ -40,8 +40,12 @@ Log(op, w) == LogI(op, w, FALSE)
 \* the driver did not wait
 Building(c) == /\ hist # <<>>
                /\ LET h == hist[Len(hist)] IN h.op.k = "mk" /\ h.op.n = c /\ ~h.w /\ Connected(h.op.p)
-Op0(k, n, p) == [k |-> k, n |-> n, p |-> p, o |-> "", b |-> 0, u |-> ""]
-Op(k, n, p, o) == [k |-> k, n |-> n, p |-> p, o |-> o, b |-> batch, u |-> ""]
+Op0(k, n, p) == [k |-> k, n |-> n, p |-> p, o |-> "", b |-> 0, u |-> "", t |-> ""]
+Op(k, n, p, o) == [k |-> k, n |-> n, p |-> p, o |-> o, b |-> batch, u |-> "", t |-> ""]
+\* timestamps of the points of a write: "new" = now; "same" = the timestamp of the previous write to
+\* the same node or edge (C08 quantifies over non-decreasing timestamps per identity: a point as new
+\* as the stored one replaces it)
+Stamps == {"new", "same"}
 \* how a placement comes (back) to life: a first creation sends the node; one that was deleted is
 \* undeleted either by mirroring it again (tombstone 0 and node type on the edge) or by the bare
 \* edge point tombstone = 0 that the UI's undelete sends
@@ -84,10 +88,10 @@ Origins == {"", "self", "other", "peer"}     \* empty, the client's node id, a u
 Write(n, o) == /\ Quiet /\ Live # {}
                /\ (n \in Cs => Exists(n)) /\ (n \in {"K1", "K2"} => \E c \in Cs : KidOf(c) = n /\ kid[c] = "live")
                /\ batch' = batch + 1 /\ UNCHANGED <<edge, up, kid>>
-               /\ Log([k |-> "write", n |-> n, p |-> "", o |-> o, b |-> batch + 1, u |-> ""], Mode # "write")
+               /\ \E t \in Stamps : Log([k |-> "write", n |-> n, p |-> "", o |-> o, b |-> batch + 1, u |-> "", t |-> t], Mode # "write")
 WriteEdge(c, p, o) == /\ Quiet /\ edge[<<c, p>>] = "live" /\ Connected(p)
                       /\ batch' = batch + 1 /\ UNCHANGED <<edge, up, kid>>
-                      /\ Log([k |-> "writeedge", n |-> c, p |-> p, o |-> o, b |-> batch + 1, u |-> ""], Mode # "write")
+                      /\ \E t \in Stamps : Log([k |-> "writeedge", n |-> c, p |-> p, o |-> o, b |-> batch + 1, u |-> "", t |-> t], Mode # "write")
 
 \* in "kids" mode a client that is being built always gets a child change into its window
 Racing == Mode = "kids" /\ \E c \in Cs : Building(c)
